@@ -251,7 +251,7 @@ Section PQ.
     | (k', v') :: r => if keqb k k' then m_del k r else (k', v') :: m_del k r
     end.
 
-  Definition kp := (K * P)%type.
+  Local Notation kp := (K * P)%type.          (* KP[K, P] *)
   Definition kpzero : kp := (kzero, pzero).
   Definition kpless (a b : kp) : bool := pless (snd a) (snd b).
   Definition kp_index (x : kp) (i : Z) (m : imap) : imap := m_set (fst x) i m.
@@ -337,8 +337,8 @@ Section PQ.
 End PQ.
 
 Arguments imap : clear implicits.
-Arguments kp : clear implicits.
 Arguments pq : clear implicits.
+Notation kp K P := (K * P)%type (only parsing).
 
 (* ---------- history level: xheap.Heap[int] and xheap.PriorityQueue[int, int] ---------- *)
 Inductive hop :=
